@@ -93,6 +93,11 @@ func genC07(t *rapid.T) c07Case {
 		if i == 0 {
 			kind = 0
 		}
+		if c07Race && i == 1 {
+			// the race build runs few cases: each has a specification in several files (the retrievals of one
+			// compilation run concurrently and share the table of claimed files)
+			kind = 2
+		}
 		var s c07Spec
 		switch {
 		case kind == 0:
